@@ -83,9 +83,10 @@ def san_kind(err):
 def san_frames(err, n=3):
     """First n frames under the repository, for the human-readable 'what' (never for keys)."""
     fr = []
-    for m in re.finditer(r'#\d+ 0x[0-9a-f]+ in (\S+) (\S+)', err):
-        if '/repo/' in m.group(2) or 'stepcode' in m.group(2):
-            fr.append('%s %s' % (m.group(1), m.group(2).split('/repo/')[-1]))
+    for m in re.finditer(r'#\d+ 0x[0-9a-f]+ in (.+?) (/\S+?:\d+)', err):
+        if '/src/' in m.group(2) or '/include/' in m.group(2):
+            fn = m.group(1).split('(')[0]
+            fr.append('%s %s' % (fn, m.group(2).split('/src/')[-1]))
             if len(fr) >= n:
                 break
     return fr
@@ -147,7 +148,7 @@ def run(cmd, cwd=None, env=None, timeout=60, stdin=None, cpu=None, mem_mb=None, 
     r.san = san_kind(errs)
     r.steps = None
     r.step_sites = {}
-    r.budget_hit = (rc == 97 and 'SC_VERIF: step budget exceeded' in errs)
+    r.budget_hit = (rc == 97)   # exit status 97 is reserved for the step-budget hook (the message may be cut off by maxout)
     if slog:
         try:
             with open(slog) as f:
